@@ -60,6 +60,7 @@ type Contract struct {
 	Loops       map[int]*LoopContract
 	GhostSets   []*GhostSet
 	AtCalls     []*AtCall
+	AssumeRequires map[string]bool // callees whose preconditions are assumed at call sites of this function
 	MissingSites []string // `at call f#N` clauses whose call site no longer exists: reported as failed obligations
 	NoPanic     bool
 	Pure        bool
@@ -282,8 +283,26 @@ func (w *World) readOnlyUse(in ssa.Instruction, v ssa.Value, depth int) bool {
 	case *ssa.DebugRef:
 		return true
 	case *ssa.Slice:
-		// slicing a global array: contents could be written through the slice; accept only for reads by callers we cannot see -> unstable
-		return false
+		// slicing a global array: contents could be written through the slice. Accepted only when the slice is used
+		// as nothing but the SOURCE of the builtin copy (`copy(dst, table[:])`)
+		refs := x.Referrers()
+		if refs == nil {
+			return false
+		}
+		for _, r := range *refs {
+			if _, ok := r.(*ssa.DebugRef); ok {
+				continue
+			}
+			c, ok := r.(*ssa.Call)
+			if !ok {
+				return false
+			}
+			b, ok := c.Call.Value.(*ssa.Builtin)
+			if !ok || b.Name() != "copy" || len(c.Call.Args) != 2 || c.Call.Args[1] != ssa.Value(x) || c.Call.Args[0] == ssa.Value(x) {
+				return false
+			}
+		}
+		return true
 	}
 	return false
 }
@@ -474,7 +493,7 @@ func (w *World) cellFor(fn *ssa.Function, v *types.Var) *ssa.Alloc {
 
 // ---- contract files
 
-var kwRe = regexp.MustCompile(`^(type_no_method|also_modifies|inline_call|func|extern|lemma|requires|ensures|modifies|invariant|decreases|loop|nopanic|pure|inline|opaque|trusted|property|ghost_set|at|const_global|ghost_global|may_panic)\b`)
+var kwRe = regexp.MustCompile(`^(assume_requires|type_no_method|also_modifies|inline_call|func|extern|lemma|requires|ensures|modifies|invariant|decreases|loop|nopanic|pure|inline|opaque|trusted|property|ghost_set|at|const_global|ghost_global|may_panic)\b`)
 
 func (w *World) parseContracts(p *packages.Package) error {
 	for i, f := range p.Syntax {
@@ -579,6 +598,16 @@ func (w *World) parseContracts(p *packages.Package) error {
 					}
 					if len(f) > 0 {
 						cur.InlineCalls[f[0]] = n
+					}
+					last = nil
+				case "assume_requires":
+					// assume_requires <callee-name>: the callee's preconditions are assumed at its call sites in this
+					// function (data-level well-formedness supplied by another layer); listed as an assumption
+					if cur.AssumeRequires == nil {
+						cur.AssumeRequires = map[string]bool{}
+					}
+					for _, f := range strings.Fields(rest) {
+						cur.AssumeRequires[f] = true
 					}
 					last = nil
 				case "nopanic":
